@@ -183,7 +183,114 @@ def evaluate_multi(case):
     return Outcome(True, "detected_all" in labels, labels)
 
 
+@st.composite
+def saturation_cases(draw, tier):
+    """path_matching on its own: any arc subset / generated graph, any vertex, any ACGT string, any position."""
+    import random
+    if draw(st.booleans()):
+        spec = draw(gens.generated_graphs(1, 4, {1: 2, 2: 5, 3: 4, 4: 2}))
+        graph = {"k": spec["k"], "rows": spec["rows"]}
+    else:
+        graph = draw(gens.arc_subsets(1, 4, {1: 2, 2: 5, 3: 4, 4: 2}))
+    k, rows = graph["k"], graph["rows"]
+    with_arcs = [v for v, r in enumerate(rows) if r] or [0]
+    previous = draw(st.sampled_from([with_arcs[draw(st.integers(0, len(with_arcs) - 1))],
+                                     draw(st.integers(0, 4 ** k - 1))]))
+    rng = random.Random(draw(st.integers(0, 2 ** 32 - 1)))
+    location = draw(st.integers(0, 12))
+    # the prefix before the position is free text; the rest follows the graph from a successor of the chosen vertex
+    # (so that some repairs succeed) and may then be damaged again
+    prefix = "".join(rng.choice("ACGT") for _ in range(location))
+    tail = draw(gens.walks(graph, previous, 1, 30)) or rng.choice("ACGT")
+    shape = draw(st.sampled_from(["walk", "substituted", "inserted", "deleted", "damaged_later", "random"]))
+    if shape == "substituted":
+        tail = rng.choice([c for c in "ACGT" if c != tail[0]]) + tail[1:]
+    elif shape == "inserted":
+        tail = rng.choice("ACGT") + tail
+    elif shape == "deleted":
+        tail = tail[1:] or rng.choice("ACGT")
+    elif shape == "damaged_later" and len(tail) > 2:
+        q = rng.randrange(1, len(tail))
+        tail = rng.choice([c for c in "ACGT" if c != tail[0]]) + tail[1:q] + rng.choice("ACGT") + tail[q + 1:]
+    elif shape == "random":
+        tail = "".join(rng.choice("ACGT") for _ in range(rng.randrange(1, 20)))
+    return {"graph": graph, "previous": previous, "text": prefix + tail, "location": location, "shape": shape,
+            "indel": draw(st.booleans()), "alphabet": draw(st.sampled_from([None, None, None, "ACGT", "TGCA", "CATG"])),
+            "layout": draw(st.sampled_from([None, None, None, "F", "strided", "offset", "int32"])),
+            "np_scalars": draw(st.sampled_from([False, False, True]))}
+
+
+def evaluate_saturation(case):
+    """Mechanism named by the property: 'saturation substitution / insertion / deletion at each recalled position,
+    validated by walking the rest of the chunk'.  Oracle: exactly the single edits at that position after which the
+    rest of the string follows the graph from the given vertex."""
+    import numpy
+    from pbt.core import import_dsw, lib_call
+    dsw = import_dsw()
+    graph = case["graph"]
+    k, rows, v, p = graph["k"], graph["rows"], case["previous"], case["location"]
+    alphabet = case["alphabet"] or "ACGT"
+    text = case["text"].translate(str.maketrans("ACGT", alphabet))  # column j of the accessor is alphabet[j]
+    canon = case["text"]
+    table = o.succ_table(k)
+    labels = ["k=%d" % k, "shape:" + case["shape"], "indel" if case["indel"] else "no_indel"] + (
+        ["alphabet:" + case["alphabet"]] if case["alphabet"] else []) + (
+        ["layout:" + case["layout"]] if case.get("layout") else [])
+    want = []
+    for j in o.live(rows, v):
+        if o.NUC[j] != canon[p] and o.is_walk(rows, k, table[v][j], canon[p + 1:]):
+            want.append((("S", p, alphabet[j]), text[:p] + alphabet[j] + text[p + 1:]))
+    if case["indel"]:
+        for j in o.live(rows, v):
+            if o.is_walk(rows, k, table[v][j], canon[p:]):
+                want.append((("I", p, alphabet[j]), text[:p] + alphabet[j] + text[p:]))
+        if o.is_walk(rows, k, v, canon[p + 1:]):
+            want.append((("D", p, text[p]), text[:p] + text[p + 1:]))
+    acc = gens.accessor_of(graph, case.get("layout"))
+    snapshot = numpy.array(acc, copy=True)
+    arguments = dict(dna_sequence=text, accessor=acc, previous_index=v, occur_location=p, has_indel=case["indel"])
+    if case["alphabet"]:
+        arguments["nucleotides"] = case["alphabet"]
+    if case.get("np_scalars"):
+        arguments.update(previous_index=numpy.int64(v), occur_location=numpy.int64(p), dna_sequence=numpy.str_(text))
+    got = lib_call(dsw.path_matching, **arguments)
+    what = "path_matching(%r, previous_index=%d, occur_location=%d, has_indel=%s%s) on k=%d rows=%r" \
+           % (text, v, p, case["indel"], ", nucleotides=%r" % case["alphabet"] if case["alphabet"] else "", k,
+              rows if len(rows) <= 64 else "...")
+    if isinstance(got, Raised):
+        return bad("%s raised %r" % (what, got), labels)
+    if not numpy.array_equal(acc, snapshot):
+        return bad("%s modified the accessor" % what, labels)
+    try:
+        info, visited = got
+        found = sorted(((str(a), int(b), str(c)), str(d)) for (a, b, c), d in info)
+    except (TypeError, ValueError):
+        return bad("%s returned %r, not (list of ((kind, position, nucleotide), string), count)" % (what, got), labels)
+    if found != sorted(want):
+        missing = [w for w in sorted(want) if w not in found]
+        extra = [f for f in found if f not in want]
+        return bad("%s: repairs %r; the single edits at position %d after which the rest follows the graph are %r "
+                   "(missing %r, unexpected %r)" % (what, found[:6], p, sorted(want)[:6], missing[:3], extra[:3]),
+                   labels)
+    if not 0 <= int(visited) <= 9 * (len(text) + 1):
+        return bad("%s reports %r visited vertices for a string of %d symbols" % (what, visited, len(text)), labels)
+    kinds = {w[0][0] for w in want}
+    labels += ["repairs:%s" % ("0" if not want else ("1" if len(want) == 1 else "2+"))] + ["has_" + x for x in kinds]
+    return Outcome(True, len(want) >= 1, labels)
+
+
 SUBCHECKS = [
+    SubCheck("saturation_at_a_position", evaluate_saturation, strategy=saturation_cases, examples=(6000, 80000),
+             shards=(16, 16), floors={"has_S": 800, "has_I": 400, "has_D": 300, "repairs:2+": 500, "repairs:0": 300,
+                                      "alphabet:TGCA": 200, "k=4": 200},
+             rule="The mechanism the property names (path_matching) on its own: arc subsets and generated graphs of "
+                  "order 1..4, any vertex, an ACGT string whose part after the position is a walk from that vertex, "
+                  "a walk with its first symbol substituted / an inserted symbol / a deleted symbol / a second "
+                  "damage, or random; position 0..12; indel handling on/off; default alphabet or a permutation "
+                  "passed as `nucleotides`. Oracle (independent walk predicate): the returned repairs are EXACTLY "
+                  "the substitutions (other live arcs of the vertex), insertions (live arcs) and the deletion at "
+                  "that position after which the rest of the string is a walk, each with its repaired string; the "
+                  "accessor is unchanged. Non-trivial: at least one repair exists.", timeout=120.0),
     SubCheck("all_single_edits", evaluate_single, strategy=single_cases, examples=(320, 5000), shards=(16, 16),
              floors={"latency=k-1": 100, "kind:S": 150, "kind:I": 150, "kind:D": 150, "k=1": 15, "k=4": 15,
                      "check": 60}, rule=RULE, timeout=300.0),
